@@ -26,7 +26,7 @@ for pid in ALL:
 na = [{"property_id": p, "reason": NOT_APPLICABLE.get(p, "check not built yet in this round (work in progress; see DESIGN.md)")} for p in ALL if p not in PROPS]
 m = {
     "version": 1,
-    "setup_cmd": "python3 tools/build.py chk san",
+    "setup_cmd": "python3 tools/prebuild.py",
     "hooks": {"guard": "ADAPTAGRAMS_VERIF", "enable": "no source hooks are needed: harnesses use -fno-access-control, #include of library .cpp files, and replacement of global operator new; libraries are rebuilt from /repo by tools/build.py with -DUSE_ASSERT_EXCEPTIONS",
               "baseline_off_cmd": "cd /repo/cola && make -k check", "source_commits": [], "add_only": True},
     "engines": [
